@@ -5,6 +5,7 @@ import (
 	"context"
 	"encoding/json"
 	"fmt"
+	"github.com/ava-labs/hypersdk/genesis"
 	"testing"
 
 	"pgregory.net/rapid"
@@ -170,6 +171,26 @@ func c01Classify(c BlockCase, bb *builtBlock) (bool, []string) {
 	return nt, labels
 }
 
+// otherRulesAround returns a rule factory that yields `at` for timestamp ts exactly and
+// deliberately different rules (prices, unit costs, limits, gaps) before and after it.
+func otherRulesAround(spec RulesSpec, at *genesis.Rules, ts int64) fixture.SwitchRules {
+	o := spec
+	for d := range o.MinPrice {
+		o.MinPrice[d] = o.MinPrice[d]*10 + 900
+		o.MaxBlockUnits[d] /= 2
+	}
+	o.BaseCompute += 7
+	o.KeyRead, o.KeyAlloc, o.KeyWrite = o.KeyRead+3, o.KeyAlloc+3, o.KeyWrite+3
+	o.ValRead, o.ValAlloc, o.ValWrite = o.ValRead+2, o.ValAlloc+2, o.ValWrite+2
+	o.MinBlockGap += 5000
+	o.MinEmptyBlockGap += 7000
+	if o.MaxActions > 1 {
+		o.MaxActions--
+	}
+	other := o.Rules()
+	return fixture.SwitchRules{Before: other, After: at, At: ts, Later: other, Until: ts}
+}
+
 func c01Run(c BlockCase, st *vstat.Stats) error {
 	ctx := context.Background()
 	bb, err := c.materialise()
@@ -188,6 +209,13 @@ func c01Run(c BlockCase, st *vstat.Stats) error {
 	cfgs = append(cfgs, c.Configs[len(c.Configs)-1]) // most parallel one twice
 	for ci, cfg := range cfgs {
 		p, w := fixture.NewProcessor(bb.rules, noReplayWindow(), cfg, fixture.NoEngines{})
+		if ci > 0 {
+			// all runs but the first: the case's rules are in force at the block's own timestamp
+			// only; one millisecond earlier and one later, very different rules apply (a block is
+			// governed by the rules at its own timestamp, whatever its parent's or the clock's)
+			w.Stop()
+			p, w = fixture.NewProcessorRF(otherRulesAround(c.Rules, bb.rules, c.Time), noReplayWindow(), cfg, fixture.NoEngines{})
+		}
 		// every run gets freshly built txs: Transaction caches its state keys
 		blk := bb.blk
 		if ci > 0 {
